@@ -388,3 +388,74 @@ Proof. refute_deconv2. Qed.
 (* the repaired backward operator does not help the non-periodic paddings *)
 Lemma deconv2_fixed_edge_refuted : adjoint_fails (deconv2_model_gen true BEdge 3 3 wP3) wx9 wx9.
 Proof. refute_deconv2. Qed.
+
+(* ---------- get_matrix after the repair: assembled through forward wherever the given matrix is not the parameter map ---------- *)
+Lemma get_matrix_gen_false m :
+  get_matrix_gen false m = get_matrix (mkLM (lm_fwd m) (lm_adj m) None (lm_D m) (lm_R m)).
+Proof. unfold get_matrix_gen, get_matrix. destruct (lm_mat m); reflexivity. Qed.
+
+Lemma mat_model_forward n A D R x : wf_geom D -> wf_geom R -> vec_geom D -> vec_geom R -> length A = fun_dim R ->
+  length x = par_dim D -> forward (mat_model n A D R) (V1 x) = Some (V1 (fm_forward A D R x)).
+Proof.
+  intros WD WR VD VR HL Hx. unfold forward, apply_func, fm_forward. cbn [mat_model lm_fwd lm_D lm_R].
+  rewrite (p2f_pmap D x Hx). cbn [obind]. rewrite (funval_vec D _ VD). cbn [mat_fwd obind].
+  rewrite <- (funval_vec R (qmatvec A (pmap D x)) VR). apply f2p_fmap; [exact WR|].
+  rewrite qmatvec_length. exact HL.
+Qed.
+
+Theorem matrix_model_get_matrix_repaired n A D R :
+  wf_geom D -> wf_geom R -> vec_geom D -> vec_geom R -> wf_mat n A -> n = fun_dim D -> length A = fun_dim R ->
+  exists G, get_matrix_gen false (mat_model n A D R) = Some G /\ wf_mat (par_dim D) G /\ length G = par_dim R /\
+    (forall x, length x = par_dim D -> forward (mat_model n A D R) (V1 x) = Some (V1 (qmatvec G x))) /\
+    (forall j, (j < par_dim D)%nat ->
+       forward (mat_model n A D R) (V1 (qunit (par_dim D) j)) = Some (V1 (col 0 G j))).
+Proof.
+  intros WD WR VD VR WM Hn HL. rewrite get_matrix_gen_false.
+  destruct (get_matrix_columns (mkLM (lm_fwd (mat_model n A D R)) (lm_adj (mat_model n A D R)) None D R) (fm_forward A D R))
+    as (G & EG & WG & LG & HG & HC).
+  - reflexivity.
+  - intros x Hx. cbn [lm_D] in Hx. exact (mat_model_forward n A D R x WD WR VD VR HL Hx).
+  - cbn [lm_D lm_R]. apply (fm_forward_linear n); assumption.
+  - cbn [mat_model lm_D lm_R lm_fwd lm_adj] in *. exists G. repeat split; try assumption.
+    + intros x Hx. rewrite (HG x Hx). apply mat_model_forward; assumption.
+    + intros j Hj. rewrite (HC j Hj). apply mat_model_forward; try assumption. apply qunit_length.
+Qed.
+
+Lemma get_matrix_gen_true m : get_matrix_gen true m = get_matrix m.
+Proof. unfold get_matrix_gen, get_matrix. destruct (lm_mat m); reflexivity. Qed.
+
+(* ---------- StepExpansion with the 'max' / 'min' projections: fun2par is not linear ---------- *)
+Definition wI2 := zm [[1; 0]; [0; 1]]%Z.
+Lemma step_max_not_additive :
+  exists x x' a b c, forward (fun_model 2 wI2 (GId 2) (GStepX true [2%nat])) (V1 x) = Some (V1 a) /\
+                     forward (fun_model 2 wI2 (GId 2) (GStepX true [2%nat])) (V1 x') = Some (V1 b) /\
+                     forward (fun_model 2 wI2 (GId 2) (GStepX true [2%nat])) (V1 (qvadd x x')) = Some (V1 c) /\
+                     c <> qvadd a b.
+Proof.
+  exists (zv [1; 0]%Z), (zv [0; 1]%Z). do 3 eexists.
+  split; [vm_compute; reflexivity|]. split; [vm_compute; reflexivity|]. split; [vm_compute; reflexivity|].
+  intros H. apply (f_equal (fun l => qcl_eqb l (zv [1]%Z))) in H. vm_compute in H. discriminate.
+Qed.
+
+Lemma step_max_adjoint_refuted :
+  adjoint_fails (mat_model 2 wI2 (GStepX true [2%nat]) (GId 2)) (zv [1]%Z) (zv [1; -1]%Z).
+Proof.
+  eexists; eexists. split; [vm_compute; reflexivity|]. split; [vm_compute; reflexivity|].
+  apply qc_neq_of_eqb. vm_compute. reflexivity.
+Qed.
+
+Lemma step_min_adjoint_refuted :
+  adjoint_fails (mat_model 2 wI2 (GStepX false [2%nat]) (GId 2)) (zv [1]%Z) (zv [1; 2]%Z).
+Proof.
+  eexists; eexists. split; [vm_compute; reflexivity|]. split; [vm_compute; reflexivity|].
+  apply qc_neq_of_eqb. vm_compute. reflexivity.
+Qed.
+
+(* get_matrix of a function pair whose range projects by max: the assembled matrix does not reproduce forward *)
+Lemma step_max_get_matrix_refuted :
+  exists G x fx, get_matrix (fun_model 2 wI2 (GId 2) (GStepX true [2%nat])) = Some G /\
+                 forward (fun_model 2 wI2 (GId 2) (GStepX true [2%nat])) (V1 x) = Some (V1 fx) /\ qmatvec G x <> fx.
+Proof.
+  eexists. exists (zv [1; 1]%Z). eexists. split; [vm_compute; reflexivity|]. split; [vm_compute; reflexivity|].
+  intros H. apply (f_equal (fun l => qcl_eqb l (zv [1]%Z))) in H. vm_compute in H. discriminate.
+Qed.
